@@ -81,24 +81,31 @@ func leavesOf(fn *ssa.Function, v ssa.Value, o sliceOpts) map[string]bool {
 	seen := map[ssa.Value]bool{}
 	seenAlloc := map[*ssa.Alloc]bool{}
 	var walk func(v ssa.Value)
+	seenAllocPath := map[string]bool{}
 	addrLeaf := func(a ssa.Value) {
 		// local allocation: follow what was stored into it
 		root := a
+		suffix := ""
 		for {
 			switch x := root.(type) {
 			case *ssa.FieldAddr:
+				f, _ := fieldOfAddr(x)
+				suffix = "." + f.Name() + suffix
 				root = x.X
 				continue
 			case *ssa.IndexAddr:
+				suffix = "[]" + suffix
 				root = x.X
 				continue
 			}
 			break
 		}
 		if al, ok := root.(*ssa.Alloc); ok {
-			if seenAlloc[al] {
+			k := al.Name() + suffix
+			if seenAllocPath[k] {
 				return
 			}
+			seenAllocPath[k] = true
 			seenAlloc[al] = true
 			eachInstr(fn, func(_ *ssa.BasicBlock, in ssa.Instruction) {
 				if st, ok := in.(*ssa.Store); ok {
@@ -115,6 +122,17 @@ func leavesOf(fn *ssa.Function, v ssa.Value, o sliceOpts) map[string]bool {
 						break
 					}
 					if r == al {
+						// the whole object copied from non-local memory: the field read is that memory's field
+						if st.Addr == al && suffix != "" && !strings.Contains(suffix, "[]") {
+							if u, ok := st.Val.(*ssa.UnOp); ok && u.Op == token.MUL {
+								if al2, _ := allocRootOfAddr(u.X); al2 == nil {
+									if _, isAl := u.X.(*ssa.Alloc); !isAl {
+										out[canonAddr(u.X)+suffix] = true
+										return
+									}
+								}
+							}
+						}
 						walk(st.Val)
 					}
 				}
@@ -156,6 +174,16 @@ func leavesOf(fn *ssa.Function, v ssa.Value, o sliceOpts) map[string]bool {
 				walk(x.X)
 			}
 		case *ssa.Field:
+			// a field of a struct loaded from non-local memory: the leaf is that field, not the whole struct
+			if u, ok := x.X.(*ssa.UnOp); ok && u.Op == token.MUL {
+				if al, _ := allocRootOfAddr(u.X); al == nil {
+					if _, isAlloc := u.X.(*ssa.Alloc); !isAlloc {
+						f, _ := fieldOfVal(x)
+						out[canonAddr(u.X)+"."+f.Name()] = true
+						return
+					}
+				}
+			}
 			walk(x.X)
 		case *ssa.Extract:
 			walk(x.Tuple)
@@ -255,6 +283,7 @@ type memoSite struct {
 	Key   ssa.Value
 	Val   ssa.Value
 	Kind  string // closure-map, global-map, sync.Map
+	Lookup *ssa.Lookup // the miss test that precedes the store (map memos)
 }
 
 // findMemoSites lists stores into memo maps in the given functions.
@@ -282,16 +311,17 @@ func findMemoSites(fns []*ssa.Function) []memoSite {
 					return
 				}
 				// memo pattern: a lookup of the same map with the same key precedes the store
-				if !hasPriorLookup(fn, x, m, x.Key) {
+				lk := priorLookup(fn, x, m, x.Key)
+				if lk == nil {
 					return
 				}
-				out = append(out, memoSite{fn, in, name, x.Key, x.Value, kind})
+				out = append(out, memoSite{fn, in, name, x.Key, x.Value, kind, lk})
 			case *ssa.Call:
 				co := calleeObj(&x.Call)
 				if objIs(co, "sync", "Map", "Store") || objIs(co, "sync", "Map", "LoadOrStore") {
 					recv := x.Call.Args[0]
 					if g, ok := recv.(*ssa.Global); ok {
-						out = append(out, memoSite{fn, in, g.String(), x.Call.Args[1], x.Call.Args[2], "sync.Map"})
+						out = append(out, memoSite{fn, in, g.String(), x.Call.Args[1], x.Call.Args[2], "sync.Map", nil})
 					}
 				}
 			}
@@ -300,12 +330,12 @@ func findMemoSites(fns []*ssa.Function) []memoSite {
 	return out
 }
 
-func hasPriorLookup(fn *ssa.Function, st *ssa.MapUpdate, m, key ssa.Value) bool {
-	found := false
+func priorLookup(fn *ssa.Function, st *ssa.MapUpdate, m, key ssa.Value) *ssa.Lookup {
+	var found *ssa.Lookup
 	eachInstr(fn, func(_ *ssa.BasicBlock, in ssa.Instruction) {
 		if lk, ok := in.(*ssa.Lookup); ok {
 			if (lk.X == m || sameValue(lk.X, m)) && (lk.Index == key || sameValue(lk.Index, key) || canonVal(lk.Index) == canonVal(key)) && instrDominates(lk, st) {
-				found = true
+				found = lk
 			}
 		}
 	})
@@ -323,6 +353,21 @@ func checkMemoSites(c *Ctx, p *Prog, rule string, sites []memoSite, want func(me
 		n++
 		inputs := leavesOf(s.Fn, s.Val, sliceOpts{})
 		keyL := leavesOf(s.Fn, s.Key, sliceOpts{injective: true})
+		// a stored decision: what is cached also depends on the branches taken between the miss and the store; of those
+		// conditions' inputs, the ones read from this call's arguments vary from call to call and must be in the key
+		if s.Lookup != nil {
+			for _, f := range factsAt(s.Instr.Block()) {
+				ib := f.If.Block()
+				if ib != s.Lookup.Block() && !s.Lookup.Block().Dominates(ib) {
+					continue
+				}
+				for in := range leavesOf(s.Fn, f.Cond, sliceOpts{}) {
+					if strings.HasPrefix(in, "param:") || strings.HasPrefix(in, "*param:") {
+						inputs[in] = true
+					}
+				}
+			}
+		}
 		var missing []string
 		for in := range inputs {
 			if keyL[in] {
